@@ -272,7 +272,7 @@ def handle (j : Json) : Except String Verdict := do
         readsOf := (i, targetKind t) :: readsOf
       match cmpWant mWant impl with
       | .agree => pure ()
-      | .na => acc := { acc with tags := "na-codec" :: acc.tags }
+      | .na => pure ()     -- (`cmpWant` never answers `.na`: the constructor serves `cmpRows` / `cmpClaim` only)
       | .differ why => acc := ({ acc with agree := false }).note s!"C13/{req.name}" s!"op #{k} {req.name} (model): {why}"
       match cmpWant sWant impl with
       | .agree => pure ()
